@@ -571,3 +571,238 @@ func historyCase(r *Run, t pduType, v interface{}, x poison, b1, b2 []byte) {
 }
 
 var _ = coding.NoCoding
+
+// ---------------------------------------------------------------- dense deterministic sweeps
+// denseSweep: sizes walked one by one instead of sampled — a defect that shows at particular frame lengths (a buffer that
+// reallocates at a capacity step, an estimate that is one octet short) needs EVERY length, with every way the short message
+// can be written:
+//   - every type with a short message: message length 0..140 x {no UDH indicator; indicator with a nil, an empty, a one-element header};
+//   - every C-octet-string field and every address number: length 0..66 (the largest field maximum of SMPP v5 is 65, +1);
+//   - every type with TLVs: one TLV of 0..300 octets, and around the 512 / 1024 steps.
+// part: "message" | "strings" | "tlvs".
+func denseSweep(ts []pduType, part string) []corpusItem {
+	var out []corpusItem
+	fill := func(n int, c byte) []byte { return bytes.Repeat([]byte{c}, n) }
+	for _, t := range ts {
+		t := t
+		facts := observePrepare(t.T)
+		mk := func() reflect.Value {
+			p := reflect.New(t.T)
+			pdu.WriteSequence(p.Interface(), int32(1+len(out)%9999))
+			if facts.isReplace { // replace_sm carries no data_coding: the representable domain has the "absent" marker there
+				for j := 0; j < t.T.NumField(); j++ {
+					if m, ok := p.Elem().Field(j).Interface().(pdu.ShortMessage); ok {
+						m.DataCoding = coding.NoCoding
+						p.Elem().Field(j).Set(reflect.ValueOf(m))
+					}
+				}
+			}
+			return p
+		}
+		for j := 0; j < t.T.NumField(); j++ {
+			f := t.T.Field(j)
+			switch {
+			case part == "message" && f.Type == reflect.TypeOf(pdu.ShortMessage{}):
+				modes := []string{"no-udh", "udh-empty", "udh-1"}
+				if facts.esmField >= 0 {
+					modes = []string{"no-udhi", "udhi+nil-udh", "udhi+empty-udh", "udhi+1-element"}
+				}
+				for _, mode := range modes {
+					for l := 0; l <= 140; l++ {
+						p := mk()
+						m := pdu.ShortMessage{Message: fill(l, 0x6D)}
+						if facts.isReplace {
+							m.DataCoding = coding.NoCoding
+						}
+						switch mode {
+						case "udh-empty", "udhi+empty-udh":
+							m.UDHeader = pdu.UserDataHeader{}
+						case "udh-1", "udhi+1-element":
+							m.UDHeader = pdu.UserDataHeader{0: {7, 2, 1}}
+						}
+						if facts.esmField >= 0 && mode != "no-udhi" {
+							p.Elem().Field(facts.esmField).Set(reflect.ValueOf(pdu.ESMClass{UDHIndicator: true}))
+						}
+						p.Elem().Field(j).Set(reflect.ValueOf(m))
+						out = append(out, corpusItem{t, p.Interface(), fmt.Sprintf("%s message=%d %s", t.Name, l, mode)})
+					}
+				}
+			case part == "strings" && f.Type.Kind() == reflect.String:
+				for l := 0; l <= 66; l++ {
+					p := mk()
+					p.Elem().Field(j).SetString(string(fill(l, 'a'+byte(l%26))))
+					out = append(out, corpusItem{t, p.Interface(), fmt.Sprintf("%s.%s length=%d", t.Name, f.Name, l)})
+				}
+			case part == "strings" && f.Type == reflect.TypeOf(pdu.Address{}):
+				for l := 0; l <= 66; l++ {
+					p := mk()
+					p.Elem().Field(j).Set(reflect.ValueOf(pdu.Address{TON: 1, NPI: 1, No: string(fill(l, '0'+byte(l%10)))}))
+					out = append(out, corpusItem{t, p.Interface(), fmt.Sprintf("%s.%s number length=%d", t.Name, f.Name, l)})
+				}
+			case part == "tlvs" && f.Type == reflect.TypeOf(pdu.Tags{}):
+				var ls []int
+				for l := 0; l <= 300; l++ {
+					ls = append(ls, l)
+				}
+				for l := 440; l <= 520; l++ {
+					ls = append(ls, l)
+				}
+				for l := 950; l <= 1030; l++ {
+					ls = append(ls, l)
+				}
+				for _, l := range ls {
+					p := mk()
+					p.Elem().Field(j).Set(reflect.ValueOf(pdu.Tags{0x0424: fill(l, 0x70)}))
+					out = append(out, corpusItem{t, p.Interface(), fmt.Sprintf("%s TLV length=%d", t.Name, l)})
+				}
+			}
+		}
+	}
+	return out
+}
+
+// ---------------------------------------------------------------- aliasing between values the library hands out
+// mutateReachable writes through every map and slice reachable from a *PDU: every value octet is inverted in place, a new
+// entry is added to every map, every slice element is overwritten and the slice appended to.  What a caller may do with a
+// value it owns.
+func mutateReachable(p interface{}) {
+	v := reflect.ValueOf(p).Elem()
+	inv := func(b []byte) {
+		for i := range b {
+			b[i] ^= 0xFF
+		}
+	}
+	for j := 0; j < v.NumField(); j++ {
+		switch x := v.Field(j).Interface().(type) {
+		case pdu.Tags:
+			for _, d := range x {
+				inv(d)
+			}
+			if x != nil {
+				x[0xEEEE] = []byte{0xEE}
+			}
+		case pdu.ShortMessage:
+			for _, d := range x.UDHeader {
+				inv(d)
+			}
+			if x.UDHeader != nil {
+				x.UDHeader[0xEE] = []byte{0xEE, 0xEE}
+			}
+			inv(x.Message)
+			if cap(x.Message) > len(x.Message) {
+				_ = append(x.Message, 0xEE) // writes into the backing array behind the slice
+			}
+		case pdu.DestinationAddresses:
+			for i := range x.Addresses {
+				x.Addresses[i] = pdu.Address{TON: 0xEE, NPI: 0xEE, No: "mutated"}
+			}
+			for i := range x.DistributionList {
+				x.DistributionList[i] = "mutated"
+			}
+			if cap(x.Addresses) > len(x.Addresses) {
+				_ = append(x.Addresses, pdu.Address{No: "appended"})
+			}
+		case pdu.UnsuccessfulRecords:
+			for i := range x {
+				x[i] = pdu.UnsuccessfulRecord{DestAddr: pdu.Address{TON: 0xEE, No: "mutated"}, ErrorStatusCode: 0xEE}
+			}
+		}
+	}
+}
+
+// aliasProbes: frames (laid out by the reference encoder) whose decoding is watched across the mutations: for every type with
+// an esm_class the frame with the UDH indicator set and a header of ZERO elements, plus one ordinary frame of every type.
+func aliasProbes(r *Rng, ts []pduType) (frames [][]byte, names []string) {
+	for _, t := range ts {
+		facts := observePrepare(t.T)
+		for j := 0; j < t.T.NumField(); j++ {
+			if t.T.Field(j).Type == reflect.TypeOf(pdu.ShortMessage{}) && facts.esmField >= 0 {
+				p := reflect.New(t.T)
+				pdu.WriteSequence(p.Interface(), 77)
+				p.Elem().Field(facts.esmField).Set(reflect.ValueOf(pdu.ESMClass{UDHIndicator: true}))
+				p.Elem().Field(j).Set(reflect.ValueOf(pdu.ShortMessage{UDHeader: pdu.UserDataHeader{}, Message: []byte("hi")}))
+				if f, ok := refEncode(p.Interface(), t.ID); ok {
+					frames, names = append(frames, f), append(names, t.Name+"(UDHI, zero-element header)")
+				}
+			}
+		}
+		if f, ok := refEncode(poisonBase(r, t), t.ID); ok {
+			frames, names = append(frames, f), append(names, t.Name)
+		}
+	}
+	return
+}
+
+func decodeText(f []byte) string {
+	o := readOnce(&chunkReader{data: f, sched: []int{len(f)}})
+	if o.Kind != "ok" && o.Kind != "decode-err" {
+		return o.Kind
+	}
+	return o.Kind + " " + coqValue(o.PDU)
+}
+
+// checkAliasing: (1) the same frame decoded twice: writing through everything reachable from the first result must not change
+// the second; (2) after that mutation — and after mutating a value Marshal was given — every probe frame still decodes to what
+// it decoded to before, and a probe value still marshals to the same octets.
+func checkAliasing(r *Run, prefix string, ts []pduType) {
+	probes, names := aliasProbes(r.Rng, ts)
+	before := make([]string, len(probes))
+	for i, f := range probes {
+		before[i] = decodeText(f)
+	}
+	recheck := func(what string, victim []byte) bool {
+		for i, f := range probes {
+			if got := decodeText(f); got != before[i] {
+				rp := replayStream(f, []int{len(f)})
+				rp["after_mutating_the_pdu_decoded_from"] = hex.EncodeToString(victim)
+				rp["mutation"] = what
+				r.SetReplay(rp)
+				r.Fail(prefix+"/aliasing/later-result-changed/"+what, "a frame decodes to another value after the caller wrote through the maps / slices of a PDU the library had handed out earlier (shared state)",
+					fmt.Sprintf("readpdu %x (%s) — after %s of the PDU decoded from %s", f, names[i], what, shortHex(victim)), got, before[i])
+				return false
+			}
+		}
+		return true
+	}
+	victims := append([][]byte(nil), probes...)
+	for k := 0; k < 40; k++ {
+		f, _, _ := genFrame(r.Rng, ts)
+		if len(f) < 3000 {
+			victims = append(victims, f)
+		}
+	}
+	for k, f := range victims {
+		a := readOnce(&chunkReader{data: f, sched: []int{len(f)}})
+		b := readOnce(&chunkReader{data: f, sched: []int{len(f)}})
+		r.Count(fmt.Sprintf("alias/%d", k), true, "aliasing")
+		if a.Kind != "ok" || b.Kind != "ok" {
+			continue
+		}
+		textB := coqValue(b.PDU)
+		mutateReachable(a.PDU)
+		if got := coqValue(b.PDU); got != textB {
+			rp := replayStream(f, []int{len(f)})
+			rp["mutation"] = "decoded-twice"
+			r.SetReplay(rp)
+			r.Fail(prefix+"/aliasing/two-decodes-share-storage", "two PDUs decoded from the same frame share backing store: writing through one changes the other",
+				fmt.Sprintf("readpdu %x twice; write through every map / slice of the first result", f), got, textB)
+		}
+		if !recheck("mutating-a-decoded-pdu", f) {
+			return
+		}
+		// the same on the Marshal side: Marshal rewrites its argument (Prepare); what it put there belongs to the caller
+		_, err, _, panicked, _ := marshalRec(a.PDU) // a.PDU is now full of mutated contents; the outcome does not matter
+		_ = err
+		if !panicked {
+			c := readOnce(&chunkReader{data: f, sched: []int{len(f)}})
+			if c.Kind == "ok" {
+				if _, err2, _, p2, _ := marshalRec(c.PDU); err2 == nil && !p2 {
+					mutateReachable(c.PDU)
+					if !recheck("mutating-a-marshalled-pdu", f) {
+						return
+					}
+				}
+			}
+		}
+	}
+}
